@@ -23,11 +23,11 @@ TITLE = 'Geometric and ranking primitives equal their geometric definitions'
 RULE = ('cases = primitive calls on all lattice configurations (segments x points, rectangle pairs, ordered triples, sub-ranges, value vectors); '
         'non-trivial = non-degenerate configuration with a non-zero expected value (proper segment and off-segment point, overlapping rectangles, non-collinear triple, vector with distinct values)')
 ASSUMPTIONS = ['relative tolerance 1e-12 plus 1e-12 x configuration scale absolute', 'coordinates are exactly representable (integer lattice, power-of-two embeddings)']
-BOUNDS = {'quick': {'lattice': '{-2..3}^2', 'embeddings (scale, shift)': 5, 'curves for sub-ranges': 'A n<=4, A1 n=5,6', 'value vectors': 'length<=5 over {0,1,2,3}'},
-          'thorough': {'lattice': '{-3..4}^2', 'embeddings': 5, 'curves for sub-ranges': 'A n<=5, A1 n=6,7,8, A12 n=6', 'value vectors': 'length<=6 over {0,1,2,3}'}}
+BOUNDS = {'quick': {'lattice': '{-2..3}^2', 'embeddings (scale, shift)': 5, 'curves for sub-ranges': 'A n<=4, A1 n=5,6', 'value vectors': 'length<=5 over {0,1,2,3}', 'integer-dtype embeddings': 'int32 x2^16, int64 x2^32, int32 +2^15, int32 x2^14-2^29 (segments, triples, rectangles; sub-ranges for the first two)'},
+          'thorough': {'lattice': '{-3..4}^2', 'embeddings': 5, 'curves for sub-ranges': 'A n<=5, A1 n=6,7,8, A12 n=6', 'value vectors': 'length<=6 over {0,1,2,3}', 'integer-dtype embeddings': 'same four, finer sharding'}}
 TECHNIQUE = 'exhaustive lattice enumeration of the real primitives against exact rational geometry'
 LEVEL_TEXT = ('Model checking by complete enumeration of small lattices (degenerate cases included) under exact re-embeddings at offsets up to 2^20 and scales '
-              'down to 2^-30: every primitive call compared with its exact-arithmetic definition, plus symmetry / range / degenerate clauses.')
+              'down to 2^-30: every primitive call compared with its exact-arithmetic definition, the lattices also presented as int32 / int64 arrays whose cross products exceed the dtype, plus symmetry / range / degenerate clauses.')
 LEVEL_NOTE = 'Lattice and power-of-two embeddings only; arbitrary reals are outside the bound.'
 
 _DT = [float]   # dtype in which the arguments are presented to the library (float64, or a narrow / wide integer dtype for the integer embeddings)
